@@ -37,6 +37,20 @@ class StepBudget(BaseException):
     """per-path step or wall budget exhausted (suspected non-termination)"""
 
 
+def _inside_solver_bindings(frame):
+    """True when the interrupted code is somewhere inside the z3 Python bindings: raising there can leave reference counts of
+    solver objects inconsistent (a worker was seen to crash inside libz3 afterwards); the repeating timer fires again 50 ms
+    later, when execution is back in ordinary code"""
+    n = 0
+    while frame is not None and n < 60:
+        fn = frame.f_code.co_filename
+        if "/z3/" in fn or fn.endswith("z3core.py") or fn.endswith("z3.py"):
+            return True
+        frame = frame.f_back
+        n += 1
+    return False
+
+
 class Unsupported(BaseException):
     """the code under test used a proxy in a way the engine cannot model (harness error)"""
 
@@ -1306,8 +1320,8 @@ class Explorer:
 
     _armed = False
 
-    def _alarm(self, *_):
-        if self._armed:
+    def _alarm(self, signum=None, frame=None):
+        if self._armed and not _inside_solver_bindings(frame):
             raise StepBudget("path wall budget")
 
     def run_path(self, fn):
@@ -1641,8 +1655,8 @@ class Concrete:
 
         armed = [True]
 
-        def alarm(*_):
-            if armed[0]:
+        def alarm(signum=None, frame=None):
+            if armed[0] and not _inside_solver_bindings(frame):
                 raise StepBudget("replay wall budget")
         old = signal.signal(signal.SIGALRM, alarm)
         signal.setitimer(signal.ITIMER_REAL, wall_s, 0.05)
